@@ -92,6 +92,11 @@ func main() {
 				plan.Batch = 300
 			}
 		}
+		if i == 8 {
+			// more objects in one WriteCompressed call than the Reader accepts in one object stream
+			cfg = prog.Config{VIdx: 7}
+			plan = prog.Plan{Batch: 10001, MaxOps: 1}
+		}
 		res := prog.Run(e.Rand, cfg, plan)
 		class := fmt.Sprintf("v%d hr=%v seek=%v cipher=%d", cfg.VIdx, cfg.HR, cfg.Seek, cfg.Cipher())
 		switch {
@@ -117,7 +122,12 @@ func main() {
 		default:
 			rb := prog.Check(res)
 			e.Line("impl.obs", "%s result ok", id)
-			if rb.OpenErr == nil {
+			if rb.OpenErr == nil && res.HugeBatch {
+				// known finding: the members cannot be read; nothing to compare reference by reference
+				e.Line("impl.obs", "%s meta %d", id, cfg.VIdx)
+				e.Line("impl.obs", "%s selfcheck skipped", id)
+				e.Line("cases.txt", "%s %s Q 0", id, res.CaseLine())
+			} else if rb.OpenErr == nil {
 				e.Line("impl.obs", "%s meta %d", id, versionIndex(rb.Reader.GetMeta().Version))
 				if res.PreFilter || res.Sparse {
 					e.Line("impl.obs", "%s selfcheck skipped", id)
